@@ -1202,10 +1202,13 @@ impl World {
                 let mut gt = self.factory.golden_ticket_tx(&tip, creator);
                 gt.data.pop();
                 gt.sign(&key(creator).1);
-                let mut b = self.factory.make_block(tip.hash, tip.timestamp + 250, creator, vec![], None).await.expect("block");
+                // every second time the short ticket comes BEHIND a well-formed one (two ticket transactions in one block)
+                let pair = self.rng.below(2) == 1;
+                let first = if pair { Some(self.factory.golden_ticket_tx(&tip, creator)) } else { None };
+                let mut b = self.factory.make_block(tip.hash, tip.timestamp + 250, creator, vec![], first).await.expect("block");
                 // Block::create would itself choke on the short ticket: put it in afterwards and re-sign
                 gt.generate(&key(creator).0, 0, b.id);
-                b.transactions.insert(0, gt);
+                b.transactions.insert(if pair { 1 } else { 0 }, gt);
                 b.merkle_root = b.generate_merkle_root(false, false);
                 self.factory.resign(&mut b, creator);
                 let _ = b.generate();
